@@ -52,8 +52,8 @@ def job(j):
             if not isinstance(resp, dict) or resp.get("errors") or not render.strict_eq(got.get("e2"), ea) or not render.strict_eq(got.get("e44"), eb):
                 mm.append("two variables: resolvers saw %r, expected e2 %r e44 %r (%r)" % (w.calls, ea, eb, resp))
         st["distinct"].add(("pair", repr(rec["given"])))
-        if mm and len(st["viol"]) < 60:
-            st["viol"].append(({"kind": "var-pair", "offending": sorted(rec["offending"]), "first": mm[0][:100]},
+        if mm and len(st["viol"]) < 400:
+            genrun.add_viol(st["viol"], ({"kind": "var-pair", "offending": sorted(rec["offending"]), "first": mm[0][:100]},
                                {"cell": rec, "query": q, "variables": repr(variables), "mismatches": mm, "response": repr(resp)[:1500]}))
 
     def on_line(rec):
@@ -85,8 +85,8 @@ def job(j):
                 elif len(w.calls) != 1 or not render.strict_eq(w.calls[0][2], exp):
                     mm.append("resolver saw %r, expected %r" % (w.calls, exp))
             st["distinct"].add((rec["ti"], rec["hasDefault"], rec["present"], repr(rec["v"])))
-            if mm and len(st["viol"]) < 60:
-                st["viol"].append(({"kind": "var-cell", "type": ty, "refused_expected": rec["refused"], "first": mm[0][:100]},
+            if mm and len(st["viol"]) < 400:
+                genrun.add_viol(st["viol"], ({"kind": "var-cell", "type": ty, "refused_expected": rec["refused"], "first": mm[0][:100]},
                                    {"cell": rec, "query": q, "variables": repr(variables), "mismatches": mm, "response": repr(resp)[:1500]}))
         if len(st["samples"]) < 2 and st["n"] % 301 == 1:
             st["samples"].append({"query": q, "variables": repr(variables), "expected_refused": rec["refused"], "expected_args": rec["args"]})
